@@ -1624,8 +1624,8 @@ def _t_eval(target, _t, scope):
                     cur = cur - arg
                 elif op == '*':
                     cur = cur * arg
-                #elif op == '#':
-                #    cur = cur // arg  # TODO: python 2 friendly approach?
+                elif op == '#':
+                    cur = cur // arg
                 elif op == '/':
                     cur = cur / arg
                 elif op == '%':
